@@ -161,3 +161,46 @@ def closed_form_samplers_have_constant_jacobian(S):
     d = J[0][0] * J[1][1] - J[0][1] * J[1][0]
     absd = z3.If(d >= 0, d, -d)
     S.ensure("jacobian-determinant-is-the-measure", absd == meas, hy + [atoms[0] > 0, atoms[0] < 1, atoms[1] >= 0, atoms[1] < 1])
+
+
+# ----------------------------------------------------------------------------- union: volume-proportional mixture
+UNION = "torchphysics.problem.domains.domainoperations.union.UnionDomain"
+
+
+@scenario("C11", [UNION + "._sample_random_with_n", UNION + "._get_volume"], configs=["abstract-operands"])
+def union_mixture_uses_the_volume_ratio_of_the_row_own_parameters(S):
+    """per-call clause of 'unions are a volume-proportional mixture', for EVERY outcome of the generator:
+    row (k, j) of the result is the j-th A-sample of parameter row k if the j-th B-sample of that row lies in A or if
+    the uniform draw of that row is <= vol_A(p_k) / (vol_A(p_k) + vol_B(p_k)), and the j-th B-sample otherwise --
+    each parameter row is mixed with ITS OWN volume ratio (operands abstract: any nesting)."""
+    sp = S.new(R2, "x")
+    A = abstract_domain(S, "A", sp, {"t": 1})
+    B = abstract_domain(S, "B", sp, {"t": 1})
+    dom = S.new(UNION, A.obj, B.obj)
+    K = S.int("K", 1)
+    n = S.int("n", 1)
+    Tt = S.tensor("tt", [K, 1])
+    params = S.new(POINTS, Tt, S.new(R1, "t"))
+    pts = tensor_of(S.method(dom, "sample_random_uniform", n, None, params))
+    sa = [c for c in A.calls if c.get("kind") == "random"]
+    sb = [c for c in B.calls if c.get("kind") == "random"]
+    rands = S.ctx.ghost.get("rand", [])
+    ok = len(sa) == 1 and len(sb) == 1 and len(rands) == 1 and pts.rank == 2 and len(pts.shape[0].factors) == 2
+    S.ensure("one-sample-of-each-operand-one-uniform-draw-rows-K-by-n", ok)
+    if not ok:
+        return
+    ta, tb, u = sa[0]["tensor"].val, sb[0]["tensor"].val, rands[0].val
+    S.ensure("one-uniform-draw-per-result-row", u.shape[0].size_term() == zint(K) * zint(n))
+
+    def goal(q):
+        k, j = zint(q[0][0]), zint(q[0][1])
+        tk = [zreal(Tt.val.at([(k,), ()]))]
+        va, vb = A.vol_term(tk), B.vol_term(tk)
+        flat = k * zint(n) + j
+        uq = zreal(u.at([(flat,) if len(u.shape[0].factors) == 1 else q[0], ()]))
+        brow = [zreal(tb.at([q[0], (c,)])) for c in range(2)]
+        take_a = z3.Or(A.in_pred(brow, tk), uq <= va / (va + vb))
+        c = q[1]
+        return zreal(pts.at([q[0], c])) == z3.If(take_a, zreal(ta.at([q[0], c])), zreal(tb.at([q[0], c])))
+
+    S.forall("row-is-the-A-sample-iff-B-sample-in-A-or-draw-below-its-own-volume-ratio", Tensor(pts), goal)
